@@ -40,6 +40,7 @@ def run(ck, ctx):
     ck.rule("R14.13", READER_TEXT)
     from . import c10 as _c10j
     ck.rule("R14.16", _c10j.JUDGE_TEXT + " (shared with C10 R10.11: what was written intact must be read back)")
+    ck.rule("R14.17", RECORD_LIMIT_TEXT)
     ck.rule("R14.15", "field coverage of every encoded type is the derive's: Serialize/Deserialize of the persisted and gossiped types are the "
                       "derive-generated impls (whose field counts R14.8 checks); the only hand-written pair is SDS (R14.5). A hand-written impl "
                       "for any other type is reported - it can leave a field out and rebuild it from another one on decode (e.g. a delta's "
@@ -73,6 +74,7 @@ def run(ck, ctx):
         _r149(ck, prog, cfg)
         reader_rule(ck, prog, cfg, "R14.13")
         _r1415(ck, prog, cfg)
+        record_limit_rule(ck, prog, cfg, "R14.17")
         from . import c10 as _c10q
         _c10q.r1011(ck, prog, cfg, "R14.16")
         from . import c10 as _c10r
@@ -652,3 +654,41 @@ def _r1415(ck, prog, cfg):
                  "%s has a hand-written serde impl: its field coverage is not the derive's, so the encoding may omit or rebuild fields" % ty, f.where(),
                  detail="frozen: SDS writes/reads its raw bytes (R14.5)")
     ck.floor("R14.15" + _tag(cfg), derived, 40)
+
+
+# ------------------------------------------------------------------------------------------------
+RECORD_LIMIT_TEXT = ("what the segment writer can write the reader can read back: the record iterator decodes each record with the same unbounded "
+                     "bincode configuration the writer encodes with - no `with_limit`, no comparison of a record's length with a constant - and "
+                     "rejects a record only because it is truncated or does not decode (a read-side cap turns a successfully flushed large value "
+                     "into `recovery failed` for the whole store)")
+
+
+def record_limit_rule(ck, prog, cfg, rid):
+    from . import bounds as _b
+    from .facts import callee_names
+    n = 0
+    for f in prog.lib_fns():
+        if f.file != "src/streaming/segment.rs" or "::tests::" in f.id:
+            continue
+        if not any(o in (f.d.get("impl_self") or "") or o in f.id for o in ("DeltaIterator", "SegmentReader")):
+            continue
+        n += 1
+        bad = []
+        for g in prog.with_children(f):
+            for b, t in g.calls():
+                nm = " ".join(callee_names(t))
+                if re.search(r"Options>?::with_limit|config::.*::limit\b|::with_limit(::<.*>)?$", nm):
+                    bad.append(("with_limit", t["ln"]))
+            for b, i, st in g.stmts():
+                rv = st["rv"]
+                if rv["k"] == "bin" and rv["op"] in ("Gt", "Ge", "Lt", "Le"):
+                    ca, cb = _b.const_val(g, rv["a"]), _b.const_val(g, rv["b"])
+                    big = [c for c in (ca, cb) if c is not None and c >= 4096]
+                    if big:
+                        bad.append(("length compared with the constant %d" % big[0], st["ln"]))
+        short = re.sub(r"::\{closure#\d+\}", "", f.id).replace("streaming::segment::", "")
+        ck.check(not bad, rid, "%s:no-read-side-limit%s" % (short, _tag(cfg)),
+                 "%s puts a size limit on what it will decode (%s) that the segment writer does not enforce: a record the writer accepted, checksummed "
+                 "and the flush confirmed cannot be read back" % (short, bad[:2]), f.where(bad[0][1]) if bad else f.where(),
+                 detail="plain bincode::deserialize, rejects only truncated/undecodable records")
+    ck.floor(rid + _tag(cfg), n, 4)
